@@ -19,6 +19,7 @@ pub fn generate(family: &str, seed: u64, n: usize, tier: &str, emit: &mut dyn Fn
         "json" => json::generate(seed, n, tier, emit),
         "merge" => types::generate_merge(seed, n, tier, emit),
         "unify" => types::generate_unify(seed, n, tier, emit),
+        "truth" => types::generate_truth(seed, n, tier, emit),
         "fold" => value::generate_fold(seed, n, tier, emit),
         "size" => value::generate_size(seed, n, tier, emit),
         _ => panic!("unknown family {family}"),
@@ -38,6 +39,7 @@ pub fn eval(family: &str, payload: &str) -> String {
         "json" => json::eval(payload),
         "merge" => types::eval_merge(payload),
         "unify" => types::eval_unify(payload),
+        "truth" => types::eval_truth(payload),
         "fold" => value::eval_fold(payload),
         "size" => value::eval_size(payload),
         _ => format!("err unknown-family-{family}"),
